@@ -268,6 +268,30 @@ def dispatch_probes(h, like_targets):
     return ps
 
 
+def like_parent_iface_cases():
+    """`like` against an interface that EXTENDS other interfaces (one parent, a chain of two, two parents): only the methods
+    the target itself declares count.  Objects: with exactly the target's method; plus the parent's method with the right /
+    with another parameter count; with only the parent's method; with nothing; and a subclass inheriting the method"""
+    cases = []
+    shapes = [[("P1", [], [("g", 1)]), ("T1", ["P1"], [("f", 0)])],
+              [("P0", [], [("h", 2)]), ("P1", ["P0"], [("g", 1)]), ("T1", ["P1"], [("f", 0)])],
+              [("P1", [], [("g", 1)]), ("P2", [], [("h", 0)]), ("T1", ["P1", "P2"], [("f", 0), ("u", 1)])]]
+    for ifs in shapes:
+        own = dict((n, ms) for n, _, ms in ifs)["T1"]
+        variants = [("X1", list(own)),                                  # exactly the target's own methods
+                    ("X2", list(own) + [("g", 1)]),                     # + the parent's method, same parameter count
+                    ("X3", list(own) + [("g", 0)]),                     # + the parent's method, another parameter count
+                    ("X4", [("g", 1), ("h", 2)]),                       # only ancestors' methods
+                    ("X5", []),
+                    ("X6", [(m, a + 1) for m, a in own])]               # the target's methods with another parameter count
+        classes = [{"name": n, "extends": None, "impls": [], "methods": [(m, False, a) for m, a in ms]} for n, ms in variants]
+        classes.append({"name": "X7", "extends": "X1", "impls": [], "methods": []})
+        h = {"classes": classes, "ifaces": [{"name": n, "extends": ext, "methods": ms} for n, ext, ms in ifs]}
+        probes = [("like", c["name"], t) for c in classes for t in [n for n, _, _ in ifs]]
+        cases.append({"h": h, "probes": probes, "script": "d", "gen": "like-parent-interfaces"})
+    return cases
+
+
 def enum_dispatch():
     """every forest of 1..3 classes x every choice of which classes declare f (instance) and s
     (static); ks/kt (self::s / static::s) in the root classes, kp/kq (parent::f / parent::s) in
@@ -625,7 +649,7 @@ def main(ck):
         cases = [c]
     else:
         hcases = chain_cases(rng, ck.tier)
-        cases = enum_subtype() + enum_dispatch() + deep_cases(rng)
+        cases = enum_subtype() + enum_dispatch() + like_parent_iface_cases() + deep_cases(rng)
         if ck.tier == "quick":
             cases += seeded(rng, 250, 350)
         else:
@@ -762,7 +786,7 @@ def main(ck):
               rule="subtype: every hierarchy with 1-3 classes (every parent assignment) x 0-2 interfaces (second may extend first) x every "
                    "implements relation, each (object, type) pair through instanceof / $this instanceof / typed parameter / typed parameter "
                    "given $this / catch; dispatch: every forest of 1-3 classes x every choice of the classes declaring f and s, probed by "
-                   "->f, ->s, self::s, static::s, parent::f, parent::s and like against every class and a one-method interface; seeded "
+                   "->f, ->s, self::s, static::s, parent::f, parent::s and like against every class and a one-method interface; like against interfaces that extend one / a chain of two / two other interfaces (only the target's own methods count); seeded "
                    "hierarchies with 2-5 classes, 0-4 interfaces with multiple extends, random overrides, arities and duck interfaces; deep "
                    "structures: straight interface chains and class chains of depth 3-6, interface chain under a class chain, chain+diamond "
                    "mixes, 60 seeded chain-biased hierarchies with 4-7 interfaces; "
